@@ -8,6 +8,8 @@ INVARIANT ParseRefinesRef
 INVARIANT DumpRefinesRef
 INVARIANT DeviationExact
 INVARIANT ReparseRefinesRef
+INVARIANT SaveRefinesRef
+INVARIANT NoneIsAValue
 INVARIANT TargetsFunctionOfSources
 INVARIANT CreationRefinesRef
 INVARIANT EmitCase
